@@ -29,7 +29,10 @@ EXTRA = {
             ("gapic/schema/api.py", "Proto.python_modules"), ("gapic/samplegen/samplegen.py", "_get_sample_imports")],
     "C12": [("gapic/schema/wrappers.py", "Service.with_context"), ("gapic/schema/wrappers.py", "Method.with_context"),
             ("gapic/schema/wrappers.py", "Method.flattened_fields"), ("gapic/schema/wrappers.py", "Service.names"),
-            ("gapic/schema/wrappers.py", "Method.ref_types"), ("gapic/schema/wrappers.py", "Method._client_output")],
+            ("gapic/schema/wrappers.py", "Method.ref_types"), ("gapic/schema/wrappers.py", "Method._client_output"),
+            ("gapic/schema/metadata.py", "Address.python_import"), ("gapic/schema/metadata.py", "Address.module_alias"),
+            ("gapic/schema/metadata.py", "Address.is_proto_plus_type"), ("gapic/schema/metadata.py", "Address.convert_to_versioned_package"),
+            ("gapic/schema/metadata.py", "Address.__str__")],
     "C02": [("gapic/schema/api.py", "API.subpackages")],
     "C11": [("gapic/schema/api.py", "API.subpackages")],
 }
